@@ -213,7 +213,10 @@ class MathCheck:
         res["wall_s"] = time.time() - t0
         bound = self.bound[tier] if isinstance(self.bound, dict) else self.bound
         extra = {"disagreements_checked": res.get("disagreements_checked", 0)}
-        return _finish(prop, tier, seed, res, skipped, self.rule, bound, self.assumptions, extra, replay_kind="math")
+        assumptions = list(self.assumptions)
+        if tier == "thorough":
+            assumptions.append("complete float32 sweeps run on " + ", ".join(a for a in FULL_SWEEP_ARCHS if a in run) + " only (one architecture per distinct set of floating-point kernels, a source-level argument); the other architectures are covered by the lattice spaces in both stream orders")
+        return _finish(prop, tier, seed, res, skipped, self.rule, bound, assumptions, extra, replay_kind="math")
 
     def replay(self, prop, path):
         v = json.load(open(path))
